@@ -3,6 +3,7 @@ IMPL: view::matmul, view::matmulv2, view::dot/inner/outer/vecdot/tensordot/kron/
 shape helpers of the pipelines); results read through the view's element access AND through eval.
 ORACLE: NumPy (np.matmul, np.dot, np.inner, np.outer, np.vecdot, np.tensordot, np.kron, np.trace) on int64 data."""
 import itertools
+import re
 import numpy as np
 from runner import Case
 from shapes import shapes, prod, fmt
@@ -49,7 +50,8 @@ def harness_specs(tier):
     return [dict(name='h_c16_mm', src='h_c16_mm.cpp', flavour='fast'),
             dict(name='h_c16_dot', src='h_c16_dot.cpp', flavour='fast'),
             dict(name='h_c16_td', src='h_c16_td.cpp', flavour='fast'),
-            dict(name='h_c16_mmk', src='h_c16_mmk.cpp', flavour='fast')]
+            dict(name='h_c16_mmk', src='h_c16_mmk.cpp', flavour='fast'),
+            dict(name='h_c16_bd', src='h_c16_bd.cpp', flavour='fast')]
 
 
 # ------------------------------------------------------------------------------------------------
@@ -119,8 +121,54 @@ def stride_pick(seq, keep):
     return [seq[int(i * step)] for i in range(keep)]
 
 
+def _strip_eval(x):
+    x = re.sub(r' bd=\S+$', '', x)
+    return x[:-len(' eval=same')] if x.endswith(' eval=same') else x
+
+
+def _bd_cmp(x, y):
+    """same shape and elements; where the harness reports the static rank bound of the result type it covers the rank"""
+    for z in (x, y):
+        m = re.search(r'^ok shape=(\S+) .* bd=([0-9]+)$', z)
+        if m and m.group(1) != '[]' and len(m.group(1).split(',')) > int(m.group(2)):
+            return False
+    return _strip_eval(x) == _strip_eval(y)
+
+
+def bounded_rank_cases(tier, scale=1):
+    """Operands whose rank is only BOUNDED at compile time (shape container static_vector<size_t, CAP>), evaluated through
+    the eager functions: the helper index functions size their result containers from the rank bounds of both operands.
+    The model is asked the same request as for dynamic rank (the bound must not change the answer)."""
+    quick = tier == 'quick'
+    S = list(shapes(3, 3, min_rank=1))
+    out = []
+    for fn, mop, f in (('dot', 'dot a=%s b=%s data=lin', np.dot), ('matmul', 'matmul impl=v1 a=%s b=%s data=lin', np.matmul),
+                       ('matmulv2', 'matmul impl=v2 a=%s b=%s data=lin', np.matmul), ('inner', 'inner a=%s b=%s data=lin', np.inner),
+                       ('kron', 'kron a=%s b=%s data=lin', np.kron),
+                       ('tensordot', 'tensordot a=%s b=%s axes=1 data=lin', lambda x, y: np.tensordot(x, y, 1))):
+        for a in S:
+            for b in S:
+                r = np_try(lambda: f(mk(a, 'lin', 0), mk(b, 'lin', 1)))
+                if r is not None and np.asarray(r).size > 400:
+                    continue
+                for lc in range(len(a), 4):
+                    for rc in range(len(b), 4):
+                        out.append((fn, mop, a, b, lc, rc, r))
+    ok = [t for t in out if t[6] is not None]
+    ref = [t for t in out if t[6] is None]
+    for fn, mop, a, b, lc, rc, r in stride_pick(ok, (2400 if quick else 30000) // scale) + stride_pick(ref, (300 if quick else 3000) // scale):
+        req = 'linalg_bd fn=%s a=%s b=%s lcap=%d rcap=%d%s' % (fn, fmt(a), fmt(b), lc, rc, ' n=1' if fn == 'tensordot' else '')
+        orc = 'nothing' if r is None else _strip_eval(show(r))
+        rr = 0 if r is None else np.asarray(r).ndim
+        yield Case(req, 'h_c16_bd', mreq='c16.' + mop % (fmt(a), fmt(b)), oracle=orc, nontrivial=r is not None and rr > 0,
+                   cmp=_bd_cmp,
+                   tags=['bounded-rank', fn, 'lcap%srank' % ('=' if lc == len(a) else '>'), 'rcap%srank' % ('=' if rc == len(b) else '>'),
+                         'result-rank%scaps' % ('>' if rr > max(lc, rc) else '<=')] + ([] if r is not None else ['refused-by-numpy']))
+
+
 def gen(tier, rng):
     # the Lean driver serves these ops under the prefix `c16.` (op names like `outer`, `dot` also exist in other drivers)
+    yield from bounded_rank_cases(tier)
     for c in _gen(tier, rng):
         if not c.mreq.startswith('c16.'):
             c.mreq = 'c16.' + c.req
